@@ -515,7 +515,7 @@ func (r *cwRig) do(a Step) []string {
 			} else if err == nil {
 				r.ev(fmt.Sprintf("EvRecvRet %d (RMsg %s)", c, coqZ(tokenOf(m.Value))))
 			} else {
-				r.ev(fmt.Sprintf("EvRecvRet %d (RErr %s)", c, r.classFor(c, err)))
+				r.ev(fmt.Sprintf("EvRecvRet %d (RErr %s)", c, r.classAfter(c, err)))
 			}
 			r.setPending(k, false)
 		}()
@@ -565,7 +565,7 @@ func (r *cwRig) do(a Step) []string {
 		go func() {
 			md, err := cs.Header()
 			if err != nil {
-				r.ev(fmt.Sprintf("EvHeaderRet %d (inr %s)", c, r.classFor(c, err)))
+				r.ev(fmt.Sprintf("EvHeaderRet %d (inr %s)", c, r.classAfter(c, err)))
 			} else {
 				r.ev(fmt.Sprintf("EvHeaderRet %d (inl (MdOk %s))", c, coqZ(mdTokenOf(md))))
 			}
@@ -843,7 +843,8 @@ func (r *cwRig) intercept(srv any, ss grpc.ServerStream, _ *grpc.StreamServerInf
 }
 
 // classFor: the class of an error returned by an operation on call c. ONE observable is canonicalised: after a
-// SendMsg of the call failed with a transport write error, clientStream.teardown unregisters the handler and only
+// SendMsg of the call failed with a transport write error or in the codec (both exits call teardown(false)),
+// clientStream.teardown unregisters the handler and only
 // then cancels the stream context; the stream loop, parked in Read, may wake in between (handler closed, context
 // still live) and then ends with "respChan closed" instead of Canceled (measured: 9 of 300 runs of one scenario).
 // Model/Client.v's teardown is atomic (always Canceled); the race breaks none of C06/C07/C11, so for operations on a
@@ -852,12 +853,24 @@ func (r *cwRig) classFor(c int, err error) string {
 	cl := classOf(err)
 	r.mu.Lock()
 	failed := r.sendWFailed[c]
-	if cl == "EWrite" {
+	if cl == "EWrite" || cl == "EUnmarshal" {
 		if r.sendWFailed == nil {
 			r.sendWFailed = map[int]bool{}
 		}
 		r.sendWFailed[c] = true
 	}
+	r.mu.Unlock()
+	if failed && cl == "EClosed" {
+		return "ECanceled"
+	}
+	return cl
+}
+
+// classAfter: as classFor, for operations that do not write (RecvMsg, Header): they never set the flag
+func (r *cwRig) classAfter(c int, err error) string {
+	cl := classOf(err)
+	r.mu.Lock()
+	failed := r.sendWFailed[c]
 	r.mu.Unlock()
 	if failed && cl == "EClosed" {
 		return "ECanceled"
